@@ -98,12 +98,16 @@ def run(ctx, chk):
             extra = [s for s in m_["slots"] if s[0] not in ("one", "many", "opt")]
             chk.check(R3, not extra and not m_["problems"], "Builder::%s:operands-before-lookup" % m_["name"],
                       "operands added in an unrecognised way (%s %s): the lookup may compare an incomplete declaration" % (extra, m_["problems"]), m_["where"])
-            # operand pushes must precede the dedup branch: check statement order
-            stmts = m_["fn"]["body"][1]
-            idx_dd = [i for i, s in enumerate(stmts) if s[0] == "expr" and "dedup_insert_type" in show(s[1])]
-            idx_ops = [i for i, s in enumerate(stmts) if s[0] == "expr" and ".operands" in show(s[1]) and "dedup_insert_type" not in show(s[1])]
-            chk.check(R3, idx_dd and all(i < idx_dd[0] for i in idx_ops), "Builder::%s:order" % m_["name"],
-                      "operands are modified after the duplicate lookup", m_["where"])
+            # the lookup must compare the complete declaration: a twin lacking the last operand must not be taken for it
+            if "complete_before_lookup" in d:
+                chk.check(R3, d["complete_before_lookup"], "Builder::%s:order" % m_["name"],
+                          "a declaration lacking the last operand is found as identical: operands are added after the duplicate lookup", m_["where"])
+            else:
+                stmts = m_["fn"]["body"][1]
+                idx_dd = [i for i, s in enumerate(stmts) if s[0] == "expr" and "dedup_insert_type" in show(s[1])]
+                idx_ops = [i for i, s in enumerate(stmts) if s[0] == "expr" and ".operands" in show(s[1]) and "dedup_insert_type" not in show(s[1])]
+                chk.check(R3, idx_dd and all(i < idx_dd[0] for i in idx_ops), "Builder::%s:order" % m_["name"],
+                          "operands are modified after the duplicate lookup", m_["where"])
     chk.floor(R3, "implicit type methods", nd, 33)
     # delegation type_x -> type_x_id(None, args)
     ndel = 0
